@@ -1,6 +1,7 @@
 ---------------------------- MODULE MCVersionedTree ----------------------------
 EXTENDS VersionedTree
 \* bptree options: node cache size, fast index
+OptsC24 == {[cache |-> c, fast |-> f] : c \in {0, 8, 10000}, f \in BOOLEAN}
 OptsAll == {[cache |-> c, fast |-> f] : c \in {0, 1, 4, 10000}, f \in BOOLEAN}
 Opts4 == {[cache |-> 0, fast |-> TRUE], [cache |-> 10000, fast |-> FALSE], [cache |-> 1, fast |-> FALSE], [cache |-> 4, fast |-> TRUE]}
 Opts2 == {[cache |-> 0, fast |-> TRUE], [cache |-> 10000, fast |-> FALSE]}
